@@ -144,6 +144,8 @@ class TaskScheduler(object):
                 # stack limit, which resets the stack)
                 if self._tasks and self._tasks[-1] is task:
                     self._tasks.pop()
+                # user code ran: see _continue_with_task
+                self._pass = next(_traversal_numbers)
         self._pass = next(_traversal_numbers)
 
     def _schedule_batch(self, batch):
@@ -242,6 +244,10 @@ class TaskScheduler(object):
         # been scheduled.
         task._dependencies_scheduled = False
         task._blocked_in_pass = 0
+        # The task's code may have completed futures behind the scheduler's back (item.value()
+        # flushes a batch, set_value() on a future that others await): what this traversal has
+        # found out about blocked tasks so far is no longer reliable.
+        self._pass = next(_traversal_numbers)
 
     def _continue_with_batch(self):
         """
